@@ -20,10 +20,11 @@ const (
 
 // Config describes a simulated cluster.
 type Config struct {
-	Voters    int  // bootstrapped voters n0..n(V-1)
-	Spares    int  // extra nodes started empty (membership runs)
-	BootOne   bool // only n0 is bootstrapped (docs' way); others start empty
-	SnapAt    int  // recfsm NeedSnapshot threshold (0 = off)
+	Voters    int   // bootstrapped voters n0..n(V-1)
+	Spares    int   // extra nodes started empty (membership runs)
+	BootOne   bool  // only n0 is bootstrapped (docs' way); others start empty
+	SnapAt    int   // recfsm NeedSnapshot threshold (0 = off)
+	SnapNodes []int // if set, only these nodes take local snapshots (the application decides per node)
 	SnapPad   int
 	Timed     bool // global tick clock (C15-C17)
 	StoreHook bool // storage calls are crash points
@@ -89,21 +90,21 @@ func (e Event) String() string {
 }
 
 type Node struct {
-	Idx   int
-	ID    string
-	Addr  string
-	Alive bool
-	Inc   int
-	R     *raft.Raft
-	Tr    *SimTransport
-	Fsm   *RecFSM
-	Log   *LogDisk
-	St    *StateDisk
-	Sn    *SnapDisk
-	MLog  *MemLog
-	Fatal string // set when the library called os.Exit on this node
+	Idx          int
+	ID           string
+	Addr         string
+	Alive        bool
+	Inc          int
+	R            *raft.Raft
+	Tr           *SimTransport
+	Fsm          *RecFSM
+	Log          *LogDisk
+	St           *StateDisk
+	Sn           *SnapDisk
+	MLog         *MemLog
+	Fatal        string // set when the library called os.Exit on this node
 	ConstructErr string
-	Insts int    // fsm instances created so far
+	Insts        int // fsm instances created so far
 }
 
 // ClientOp is one client request and what became of it.
@@ -270,7 +271,16 @@ func (c *Cluster) construct(n *Node) {
 	vsched.CtlNode = n.Idx
 	vsched.CtlInc = n.Inc
 	vsched.NodeInc[n.Idx] = n.Inc
-	n.Fsm = &RecFSM{Node: n.Idx, Inst: n.Insts, Threshold: c.Cfg.SnapAt, Pad: c.Cfg.SnapPad, Rec: func(f FsmCall) { c.Fsm = append(c.Fsm, f) }}
+	thr := c.Cfg.SnapAt
+	if c.Cfg.SnapNodes != nil {
+		thr = 0
+		for _, k := range c.Cfg.SnapNodes {
+			if k == n.Idx {
+				thr = c.Cfg.SnapAt
+			}
+		}
+	}
+	n.Fsm = &RecFSM{Node: n.Idx, Inst: n.Insts, Threshold: thr, Pad: c.Cfg.SnapPad, Rec: func(f FsmCall) { c.Fsm = append(c.Fsm, f) }}
 	n.Insts++
 	n.Tr = &SimTransport{net: c.Net, node: n.Idx, inc: n.Inc, addr: n.Addr}
 	var hook StorageHook
